@@ -26,6 +26,7 @@ from cassandra.query import SimpleStatement
 TIMEOUT = 1000.0          # request_timeout (virtual seconds): far beyond anything the actions themselves consume
 SPEC_DELAY = 1.0          # ConstantSpeculativeExecutionPolicy delay
 INIT_CL = 10              # LOCAL_ONE, ExecutionProfile default
+NO_CL = 99                # the scripted policy returns None as consistency (0 is ConsistencyLevel.ANY)
 SLACK = 0.031             # _on_timeout's documented 3 x 10 ms re-arm (DESIGN 13, C15)
 BORROW_WAIT = 2.0         # _query: pool.borrow_connection(timeout=2.0) blocks that long on a busy connection
 
@@ -101,22 +102,22 @@ class ScriptedRetryPolicy(RetryPolicy):
     """The decision oracle: answers with the decision the schedule put in `script`, logs every call."""
 
     def __init__(self):
-        self.script = None            # (decision name, cl or 0)
+        self.script = None            # (decision name, consistency level or NO_CL)
         self.calls = []               # [kind, retry_num, decision, cl]
         self.live = []                # was the future incomplete when consulted
         self.future = None
 
     def _decide(self, kind, retry_num):
         if self.script is None:
-            d, c = "RETHROW", 0
-            self.calls.append([kind, retry_num, "UNSCRIPTED", 0])
+            d, c = "RETHROW", NO_CL
+            self.calls.append([kind, retry_num, "UNSCRIPTED", NO_CL])
         else:
             d, c = self.script
             self.script = None
             self.calls.append([kind, retry_num, d, c])
         f = self.future
         self.live.append(bool(f is not None and not f._event.is_set()))
-        return DEC[d], (c or None)
+        return DEC[d], (None if c == NO_CL else c)       # 0 is ConsistencyLevel.ANY, a level like any other
 
     def on_read_timeout(self, query, consistency, required_responses, received_responses, data_retrieved, retry_num):
         return self._decide("ReadTimeout", retry_num)
@@ -727,7 +728,7 @@ RETRYABLE = ("ReadTimeout", "WriteTimeout", "Unavailable", "OverloadedErrorMessa
              "ServerError", "ConnectionShutdown")
 
 
-def record(rng, nhosts=3, max_events=14, max_retries=3, max_epoch=2, p_bad=0.25, cls=(0, 1, 4, 6)):
+def record(rng, nhosts=3, max_events=14, max_retries=3, max_epoch=2, p_bad=0.25, cls=(NO_CL, 0, 1, 4)):
     """Drive the real objects with random enabled operations; returns the event list (first event = configuration)."""
     pool = [rng.choice(ALL_CONDS) if rng.random() < p_bad else "healthy" for _ in range(nhosts)]
     idem = rng.random() < 0.75
@@ -778,7 +779,7 @@ def record(rng, nhosts=3, max_events=14, max_retries=3, max_epoch=2, p_bad=0.25,
                         if f._query_retries < max_retries:
                             ds += ["RETRY", "NEXT", "RETRY", "NEXT"]
                         d = rng.choice(ds)
-                        c = rng.choice(cls) if d in ("RETRY", "NEXT") else 0
+                        c = rng.choice(cls) if d in ("RETRY", "NEXT") else NO_CL
                         ev = {"e": "AnsErr", "a": arg, "k": rng.choice(RETRYABLE), "d": d, "c": c}
                         h.act_AnsErr(ev)
                 else:
